@@ -1109,9 +1109,7 @@ theorem effP_error {c : Config} {doc : Doc} {e : CompileErr} (h : effP c doc = .
             | error e2 => simp [hci] at hstep; subst hstep; exact ⟨.inline, hci⟩
             | ok ci =>
               simp only [hci] at hstep
-              by_cases ht : ci.vals.contains idTextScanner = true
-              · simp [ht] at hstep
-              · simp [ht] at hstep
+              split at hstep <;> cases hstep
           · simp [hu] at hstep
         · simp [hin] at hstep
 
